@@ -254,7 +254,10 @@ func c19(c *Ctx) {
 				seen, _ := dg.Reach([]*GNode{body}, func(y *GNode) bool { return y == merges[0] }, func(e *GEdge) bool {
 					return edgeImplies(e, func(cnd ast.Expr, pol int) bool {
 						// detector == nil
-						if nn, ok := nilCmp(info, cnd, pol, func(x ast.Expr) bool { tv, has := info.Types[x]; return has && typeIs(tv.Type, sdkResource, "Detector") }); ok && !nn {
+						if nn, ok := nilCmp(info, cnd, pol, func(x ast.Expr) bool {
+							tv, has := info.Types[x]
+							return has && typeIs(tv.Type, sdkResource, "Detector")
+						}); ok && !nn {
 							return true
 						}
 						// !errors.Is(e, ErrPartialResource)
